@@ -248,7 +248,15 @@ def impl(case):
         # (Dominion/Hart.sample_from_cvrs, sample_from_manifest), or the contest listed without votes (make_phantoms)
         mph0 = CVR(id=m.id, votes={}, phantom=_true)
         mphc = CVR(id=m.id, votes={CID: {}}, phantom=_true)
+        # the CVR used as its OWN manual record (what mvrs_to_data(cvrs, cvrs) does when a sample size is planned from
+        # the CVRs alone), against an equal but distinct copy of it as the manual record: object identity is no evidence
+        twin = CVR(id=c.id, votes={kk: dict(v) for kk, v in c.votes.items()}, phantom=c.phantom, tally_pool=c.tally_pool,
+                   pool=c.pool)
+        bself = _call(lambda: {"st": "ok", "v": _num(asn.overstatement_assorter(c, c, use_style=us))})
+        btwin = _call(lambda: {"st": "ok", "v": _num(asn.overstatement_assorter(twin, c, use_style=us))})
         pairs.append({
+            "_self": None if (bself == btwin or (bself.get("st") != "ok" and btwin.get("st") != "ok")) else
+            f"the CVR as its own manual record gives {bself.get('v', bself.get('err'))}, an equal copy of it {btwin.get('v', btwin.get('err'))}",
             "o": _call(lambda: {"st": "ok", "v": _num(asn.assorter.overstatement(m, c, us))}),
             "b": _call(lambda: {"st": "ok", "v": _num(asn.overstatement_assorter(m, c, use_style=us))}),
             "bph": _call(lambda: {"st": "ok", "v": _num(asn.overstatement_assorter(mph, c, use_style=us))}),
@@ -601,6 +609,9 @@ def oracle_c08(case, ir):
     means_set = ir["means_set"]
     for i, (x, p) in enumerate(zip(f, ir["pairs"])):
         o = p["o"]
+        if p.get("_self"):
+            return {"what": f"pair {i} (CVR phantom={x['c_ph']}, pooled={x['c_pool']}): {p['_self']} -- a card that cannot "
+                            f"be found is scored by what the records SAY, not by which objects they are", "pair": i}
         # phantom CVR scored as a non-vote (1/2) outside a pool
         if o.get("st") == "ok" and not isinstance(o["v"], str) and x["c_ph"] and not (x["c_pool"] and means_set):
             cvr_assort = o["v"] + _mvr_A(case, x)
